@@ -302,6 +302,9 @@ def make_machine(c, job, H):
     M, meta = build_class(job["shape"], job.get("asm", False), job.get("variant", 0), H)
     H.meta = meta
     sm = M()
+    import logging
+
+    sm.logger = logging.getLogger("sm")  # magicbot injects a logger into every component / mode
     _NTID[0] += 1
     cname = f"sm{_NTID[0]}" if not world.is_sym() else "sm"
     mt.setup_tunables(sm, cname)
@@ -375,8 +378,70 @@ def run_history(c, job):
             it.raised = repr(e)[:200]
         it.now = clock.reads[nreads] if len(clock.reads) > nreads else None
         it.after = (sm.is_executing, sm.current_state, nt_current_state(H))
-    c.summary = dict(job=job.get("shape"), trace=[[x.desc() for x in it.calls] for it in H.iters],
-                     ext=[it.ext for it in H.iters])
+    c.summary = lambda: dict(job=job.get("shape"), trace=[[x.desc() for x in it.calls] for it in H.iters],
+                             ext=[it.ext for it in H.iters],
+                             after=[[sx.concretize_desc(v) for v in it.after] for it in H.iters if it.after])
+    return H
+
+
+def run_asm_history(c, job):
+    """AutonomousStateMachine: a symbolic sequence of on_enable / on_iteration / on_disable calls
+    (on_enable first; on_enable is not issued while the machine is still running)."""
+    cfg = job["cfg"]
+    clock = Clock(c)
+    install_env(c, clock)
+    H = Recorder(c, None, cfg)
+    H.clock = clock
+    sm, meta = make_machine(c, job, H)
+    K = cfg["K"]
+    enabled = False  # on_enable called and no on_disable since
+    fresh = False
+    for i in range(K):
+        it = Iter(i)
+        H.iters.append(it)
+        H.ncalls = 0
+        it.start_seq = H.nextseq()
+        if i == 0:
+            op = "on_enable"
+        else:
+            running = enabled and H.iters[-2].asm_running
+            menu = ["on_iteration", "on_disable"] + ([] if running else ["on_enable"])
+            op = menu[c.choose(f"op{i}", len(menu))]
+        it.asm_op = op
+        it.asm_fresh = False
+        it.asm_active = False
+        it.exec_seq = H.nextseq()
+        nreads = len(clock.reads)
+        try:
+            if op == "on_enable":
+                sm.on_enable()
+                enabled, fresh = True, True
+            elif op == "on_disable":
+                sm.on_disable()
+                enabled = False
+            else:
+                it.asm_fresh = fresh
+                it.asm_active = enabled
+                fresh = False
+                sm.on_iteration(c.real(f"itm{i}", 0, 1000))
+        except Exception as e:
+            it.raised = repr(e)[:200]
+        it.now = clock.reads[nreads] if len(clock.reads) > nreads else None
+        it.after = (sm.is_executing, sm.current_state, nt_current_state(H))
+        it.asm_enabled = enabled
+        if op == "on_iteration":
+            it.asm_running = enabled and running_after(it)
+        elif op == "on_enable":
+            it.asm_running = False  # nothing has run yet; becomes running at the first on_iteration
+            it.asm_pending = True
+        else:
+            it.asm_running = False
+        # "running" for the purpose of allowing on_enable: an enabled machine that has not finished
+        if op == "on_enable":
+            it.asm_running = True
+    c.summary = lambda: dict(job=job.get("shape"), ops=[it.asm_op for it in H.iters],
+                             trace=[[x.desc() for x in it.calls] for it in H.iters],
+                             after=[[sx.concretize_desc(v) for v in it.after] for it in H.iters if it.after])
     return H
 
 
